@@ -84,9 +84,16 @@ impl<'a> Lexer<'a> {
 
     pub(crate) fn next_token(&mut self) -> Lexeme {
         let start_pos = self.pos;
-        let first = self.bump().unwrap_or(EOF);
+        // only the end of the text is the end of input: a NUL byte in the text is
+        // lexed like any other byte that does not start a token (`EOF` is merely
+        // what `nth` answers past the end)
+        let Some(first) = self.bump() else {
+            return Lexeme {
+                len: 0,
+                kind: Kind::Eof,
+            };
+        };
         let kind = match first {
-            EOF => Kind::Eof,
             _ if self.in_path.in_path() => self.path(),
             byte if is_ascii_whitespace(byte) => self.whitespace(),
             b'#' => self.comment(),
